@@ -107,7 +107,14 @@ def generate(rng, tier):
         tool, argv = "ascmhl-debug", ["verify", "@R", "-dh"]
     else:
         tool, argv = "ascmhl", ["info", "-sf", "@R/" + rng.choice(files)]
-    return {"world": env, "ops": ops, "tool": tool, "argv": argv, "net": gen_net(rng),
+    wall_step = None
+    if rng.random() < 0.12:
+        # the wall clock is corrected while the command runs (NTP step, VM resume, manual change)
+        wall_step = {"at_step": rng.randint(1, 8), "us": rng.choice([-3_000_000, -3_600_000_000, -90_000_000, 5_000_000, 3_600_000_000])}
+        # (the step changes the time in manifest names; the simulator's read chunking is keyed by file name, so reads
+        # must cost nothing here or the twin's duration would differ for a reason that has nothing to do with the check)
+        env["read_cost_us"] = 0
+    return {"world": env, "ops": ops, "tool": tool, "argv": argv, "net": gen_net(rng), "wall_step": wall_step,
             "sched_seed": rng.getrandbits(32), "preempt": rng.choice([0, 50, 300, 300, 700])}
 
 
@@ -158,7 +165,7 @@ def execute(sc, ctx):
     t = wt.run_cmd(argv_t)
     t_elapsed = t.end_us - t.start_us
     t_exit = t.outcome[1] if t.outcome[0] == "exit" else "abort:" + t.extra.get("abort_type", "?")
-    r = w.run_child(("pyfunc", simthread.run_cli_job, (sc["tool"], argv, sc["net"], sc["sched_seed"], sc["preempt"])), timeout=25)
+    r = w.run_child(("pyfunc", simthread.run_cli_job, (sc["tool"], argv, sc["net"], sc["sched_seed"], sc["preempt"], sc.get("wall_step"))), timeout=25)
     ctx.evaluations += 1
     ctx.steps += 1
     if r.outcome[0] == "hang":
@@ -214,6 +221,8 @@ def execute(sc, ctx):
         ctx.violate({"kind": "termination-delayed", "cause": f">{delay // 1_000_000}s", "latency": lat_class},
                     desc + f": update check delayed termination by {delay} us")
         return
+    if r.extra.get("wall_clock_stepped"):
+        ctx.fault("wall_clock_step_" + ("back" if r.extra["wall_clock_stepped"] < 0 else "forward"))
     if v["jumps_us"] > 0:
         ctx.probe("main_waited_in_join")
     if lat is not None and v["main_end_us"] is not None and r.extra.get("net_delivered_at") and \
@@ -233,6 +242,8 @@ def shrink_candidates(sc):
         yield dict(sc, ops=ops)
     if sc["preempt"]:
         yield dict(sc, preempt=0)
+    if sc.get("wall_step"):
+        yield dict(sc, wall_step=None)
     if sc["net"].get("then"):
         yield dict(sc, net={k: v for k, v in sc["net"].items() if k != "then"})
         yield dict(sc, net=dict(sc["net"], then=sc["net"]["then"][:1]))
